@@ -1,4 +1,108 @@
-(** C14 — placeholder while the proofs are being written. *)
-From DivanV Require Import Base.Res Model.Registry Model.Tree Model.Driver.
-Theorem C14_tmp : is_list List = true.
-Proof. reflexivity. Qed.
+(** C14 — Listing runs nothing and agrees exactly with what a run would execute.
+    Statements only; each closed by [exact] of a lemma in Proofs/. *)
+From Coq Require Import Permutation.
+From DivanV Require Import Base.Res Model.Registry Model.Tree Model.Driver
+  Proofs.TreeBase Proofs.DriverExec Proofs.DriverC14.
+Local Open Scope N_scope.
+
+(** Whatever is registered, whatever the filter, the ignore flag, the run-time
+    options and the sort: the action sequences of [--list], of the terse listing
+    and of [Divan::list_benches] contain no runner construction, no [Bencher]
+    and no invocation, and do not panic. *)
+Theorem C14_list_runs_nothing : forall c srt benches groups a,
+  a = List \/ a = ListTerse ->
+  snd (run_action c srt a benches groups) = None /\
+  forallb (fun x => negb (runs_something x)) (fst (run_action c srt a benches groups)) = true.
+Proof. exact list_runs_nothing. Qed.
+Print Assumptions C14_list_runs_nothing.
+
+Theorem C14_list_benches_runs_nothing : forall c srt benches groups,
+  snd (list_benches c srt benches groups) = None /\
+  forallb (fun x => negb (runs_something x)) (fst (list_benches c srt benches groups)) = true.
+Proof. exact list_benches_runs_nothing. Qed.
+Print Assumptions C14_list_benches_runs_nothing.
+
+(** Every well-formed forest (in particular every forest [run_action] can
+    build, filter and sort), under any parent path and any inherited options
+    ([ignore] set directly, inherited from any ancestor, or overridden), any
+    ignore flag and run-time options: the terse walk prints exactly the lines
+    [path ++ ": benchmark"] of the cases the test walk executes — same
+    multiplicity, same order — and the test walk does not panic. *)
+Theorem C14_terse_eq_run : forall c t pp po,
+  wf_forest t = true ->
+  snd (run_forest c Test pp po t) = None /\
+  lines (list_forest c pp po t)
+  = map (fun p => p ++ s_benchmark) (exec_paths (fst (run_forest c Test pp po t))).
+Proof. exact terse_eq_run_forest. Qed.
+Print Assumptions C14_terse_eq_run.
+
+(** The forests [run_action] works on are well-formed. *)
+Theorem C14_built_trees_wf : forall f benches groups,
+  wf_forest (retain f (build_tree benches groups)) = true.
+Proof. exact built_trees_wf. Qed.
+Print Assumptions C14_built_trees_wf.
+
+(** Whole actions: the run sorts, the terse listing does not, so for any sort
+    (any permutation of siblings and argument names at every level) the two
+    agree as multisets. *)
+Theorem C14_terse_eq_run_action : forall srt,
+  (forall t, forest_perm t (srt t)) ->
+  forall c benches groups,
+  snd (run_action c srt Test benches groups) = None /\
+  Permutation (lines (fst (run_action c srt ListTerse benches groups)))
+              (map (fun p => p ++ s_benchmark) (exec_paths (fst (run_action c srt Test benches groups)))).
+Proof. exact terse_eq_run. Qed.
+Print Assumptions C14_terse_eq_run_action.
+
+Theorem C14_sort_hypothesis_satisfiable :
+  (forall t, forest_perm t ((fun x => x) t)) /\ (forall t, forest_perm t (rev t)).
+Proof. exact sort_hypothesis_satisfiable. Qed.
+Print Assumptions C14_sort_hypothesis_satisfiable.
+
+(** Exact round trip: if the display paths of the cases a run would execute
+    are unique, any listed path used as the only (exact) filter lists exactly
+    that line and executes exactly that case. *)
+Theorem C14_exact_roundtrip : forall srt,
+  (forall t, forest_perm t (srt t)) ->
+  forall c benches groups p,
+  NoDup (map xpath (exec_forest c [] None (build_tree benches groups))) ->
+  In (p ++ s_benchmark) (lines (fst (run_action c srt ListTerse benches groups))) ->
+  lines (fst (run_action (with_filter c (str_eqb p)) srt ListTerse benches groups)) = [p ++ s_benchmark] /\
+  snd (run_action (with_filter c (str_eqb p)) srt Test benches groups) = None /\
+  exec_paths (fst (run_action (with_filter c (str_eqb p)) srt Test benches groups)) = [p].
+Proof. exact exact_roundtrip. Qed.
+Print Assumptions C14_exact_roundtrip.
+
+(** Filtering keeps exactly the executed cases whose path passes the filter
+    (the ignore decision does not depend on the filter). *)
+Theorem C14_retain_exec : forall c f l po,
+  wf_forest l = true ->
+  exec_forest c [] po (retain f l) = filter (fun x => f (xpath x)) (exec_forest c [] po l).
+Proof. exact exec_retain. Qed.
+Print Assumptions C14_retain_exec.
+
+(** What the run executes is [exec_forest]: the direct description used above. *)
+Theorem C14_run_executes : forall c a, is_list a = false ->
+  forall l pp po, wf_forest l = true ->
+  snd (run_forest c a pp po l) = None /\ executed (fst (run_forest c a pp po l)) = exec_forest c pp po l.
+Proof. exact run_forest_ok. Qed.
+Print Assumptions C14_run_executes.
+
+(** The boolean specifications evaluated on the implementation's output mean
+    what they should, and hold of the model. *)
+Theorem C14_terse_sb_meaning : forall terse ran,
+  c14_terse_sb terse ran = true <-> Permutation terse (map (fun p => p ++ s_benchmark) ran).
+Proof. exact c14_terse_sb_spec. Qed.
+Print Assumptions C14_terse_sb_meaning.
+
+Theorem C14_roundtrip_sb_meaning : forall p terse ran,
+  c14_roundtrip_sb p terse ran = true <-> terse = [p ++ s_benchmark] /\ ran = [p].
+Proof. exact c14_roundtrip_sb_spec. Qed.
+Print Assumptions C14_roundtrip_sb_meaning.
+
+Theorem C14_model_terse_sb : forall srt, (forall t, forest_perm t (srt t)) ->
+  forall c benches groups,
+  c14_terse_sb (lines (fst (run_action c srt ListTerse benches groups)))
+               (exec_paths (fst (run_action c srt Test benches groups))) = true.
+Proof. exact model_terse_sb. Qed.
+Print Assumptions C14_model_terse_sb.
